@@ -285,8 +285,12 @@ func (t *tracer) call(c *ssa.Call, idx int, ctx []frame, proj []string) *Set {
 					out.Add(o)
 				}
 			}
-		case "EscapeBytes", "EscapeMarkers":
+		case "EscapeBytes":
+			// escapes the markers inside AND encloses the result in markers: a redactable string whose content is unsafe
 			out.Add(&Origin{Kind: Redactable, Desc: "redact." + rn + "@" + e.P.Pos(c.Pos()), Unsafe: t.trace(args[0], ctx, nil).List()})
+		case "EscapeMarkers":
+			// only replaces marker runes: the content is the argument's content, as safe or unsafe as it was
+			union(args[0])
 		case "RedactedMarker", "StartMarker", "EndMarker", "MakeFormat":
 			out.Add(&Origin{Kind: Const, Desc: "redact." + rn})
 		case "ToBytes", "ToString":
